@@ -137,6 +137,11 @@ class Canon:
                 name = n.func.attr if isinstance(n.func, ast.Attribute) else (n.func.id if isinstance(n.func, ast.Name) else None)
                 if name and len(n.args) == 1 and not n.keywords and me._await_identity(name):
                     return self.visit(n.args[0])
+                if isinstance(n.func, ast.Name) and n.func.id in ("sorted", "set", "frozenset", "tuple", "list", "any", "all", "sum", "min", "max", "enumerate", "reversed") \
+                        and n.args and isinstance(n.args[0], ast.Call) and isinstance(n.args[0].func, ast.Name) and n.args[0].func.id in ("list", "tuple") \
+                        and len(n.args[0].args) == 1 and not n.args[0].keywords and n.func.id != "reversed":
+                    # sorted(list(X), ..) is sorted(X, ..): a copy that is only iterated
+                    n = ast.Call(func=n.func, args=[n.args[0].args[0]] + list(n.args[1:]), keywords=n.keywords)
                 if name in ("startswith", "endswith") and len(n.args) == 1 and isinstance(n.args[0], ast.Tuple) and \
                         all(isinstance(e, ast.Constant) and isinstance(e.value, str) for e in n.args[0].elts):
                     # s.startswith(('spawn_', 'spawn_blocking_'))  is  s.startswith('spawn_'): an alternative that another one subsumes adds nothing
@@ -169,6 +174,12 @@ class Canon:
                 return _norm_compare(self.generic_visit(n))
 
             def visit_UnaryOp(self, n):
+                if isinstance(n.op, ast.Not) and isinstance(n.operand, ast.BoolOp):
+                    # De Morgan: not (a or b)  ->  not a and not b   (one spelling for filters and conditions alike)
+                    swapped = ast.And() if isinstance(n.operand.op, ast.Or) else ast.Or()
+                    return self.visit(ast.BoolOp(op=swapped, values=[ast.UnaryOp(op=ast.Not(), operand=v) for v in n.operand.values]))
+                if isinstance(n.op, ast.Not) and isinstance(n.operand, ast.UnaryOp) and isinstance(n.operand.op, ast.Not):
+                    return self.visit(n.operand.operand) if False else self.generic_visit(n)
                 n = self.generic_visit(n)
                 if isinstance(n.op, ast.Not) and isinstance(n.operand, ast.Compare) and len(n.operand.ops) == 1:
                     flip = {ast.In: ast.NotIn, ast.NotIn: ast.In, ast.Eq: ast.NotEq, ast.NotEq: ast.Eq, ast.Is: ast.IsNot, ast.IsNot: ast.Is}
@@ -208,6 +219,20 @@ class Canon:
         for fld in ("elt", "key", "value"):
             if hasattr(n, fld):
                 setattr(n, fld, self._c(getattr(n, fld), depth, nb))
+        # {f(x) for x in [y for y in S if P(y)]}  is  {f(x) for x in S if P(x)}: a filtered copy that is only iterated is fused
+        if len(n.generators) == 1 and isinstance(n.generators[0].target, ast.Name):
+            g = n.generators[0]
+            inner = g.iter
+            if isinstance(inner, (ast.ListComp, ast.GeneratorExp)) and len(inner.generators) == 1 and isinstance(inner.generators[0].target, ast.Name) \
+                    and isinstance(inner.elt, ast.Name) and inner.elt.id == inner.generators[0].target.id:
+                ig = inner.generators[0]
+                iv, ov = ig.target.id, g.target.id
+
+                class R(ast.NodeTransformer):
+                    def visit_Name(self, x):
+                        return ast.Name(id=ov, ctx=x.ctx) if x.id == iv else x
+                g.iter = ig.iter
+                g.ifs = [R().visit(i) for i in ig.ifs] + list(g.ifs)
         return n
 
     def _name(self, n: ast.Name, depth: int, bound) -> ast.AST:
@@ -228,7 +253,7 @@ class Canon:
             try:
                 for a_ in self._anc(getattr(n, "_orig", n)):
                     if isinstance(a_, (ast.For, ast.AsyncFor)) and any(isinstance(t_, ast.Name) and t_.id == nm for t_ in ast.walk(a_.target)):
-                        it_expr = a_.iter
+                        it_expr = getattr(a_, "_twin_iter", a_.iter)
                         break
             except Exception:
                 pass
@@ -447,7 +472,13 @@ def _first_match(cn, func: FuncInfo, test: ast.AST):
 
 
 def _selected_list(cn, func: FuncInfo, it: ast.AST):
-    """The comprehension behind ``for k in hits`` when hits = [k for k, v in X if P] (k one of the comprehension's own variables)."""
+    """The comprehension behind ``for k in hits`` when hits = [k for k, v in X if P] (k one of the comprehension's own variables);
+    also the comprehension written in place: ``for k in [k for k, v in X if P]``."""
+    if isinstance(it, (ast.ListComp, ast.GeneratorExp)):
+        if len(it.generators) == 1 and not it.generators[0].is_async and isinstance(it.elt, ast.Name) and \
+                it.elt.id in {t.id for t in ast.walk(it.generators[0].target) if isinstance(t, ast.Name)}:
+            return it
+        return None
     if not isinstance(it, ast.Name):
         return None
     v = _single_value(func, it.id)
@@ -463,6 +494,41 @@ def _selected_list(cn, func: FuncInfo, it: ast.AST):
     return v
 
 
+def _merge_complementary(recs: List[Record]) -> List[Record]:
+    """f(X) under c and f(Y) under not c (same operation, same other guards, same other arguments) is one f(X if c else Y):
+    a call written once with a conditional argument and the same call written in both branches of an ``if`` are one record."""
+    recs = list(recs)
+    changed = True
+    while changed:
+        changed = False
+        for i in range(len(recs)):
+            for j in range(i + 1, len(recs)):
+                r, q = recs[i], recs[j]
+                if r.op != q.op or r.loops != q.loops or len(r.args) != len(q.args) or not r.op.startswith("self."):
+                    continue
+                d = set(r.guards) ^ set(q.guards)
+                if len(d) != 2:
+                    continue
+                a1, a2 = sorted(d)
+                if not (a1[0] == "+" and a2[0] == "-" and a1[1:] == a2[1:]):
+                    continue
+                diff = [k for k in range(len(r.args)) if r.args[k] != q.args[k]]
+                if len(diff) != 1:
+                    continue
+                k = diff[0]
+                pos, neg = (r, q) if a1 in r.guards else (q, r)
+                merged_arg = f"({pos.args[k]}) if [{a1[1:]}] else ({neg.args[k]})"
+                args = tuple(merged_arg if m == k else r.args[m] for m in range(len(r.args)))
+                common = tuple(g for g in r.guards if g in q.guards)
+                recs[i] = Record(r.op, args, common, r.loops, min(r.line, q.line))
+                del recs[j]
+                changed = True
+                break
+            if changed:
+                break
+    return recs
+
+
 def extract(program: Program, func: FuncInfo, renames: Dict[str, str],
             inline: Optional[Dict[str, FuncInfo]] = None, param_renames=None) -> List[Record]:
     """Operation records of *func*. ``inline``: self-method name -> helper whose
@@ -476,17 +542,30 @@ def extract(program: Program, func: FuncInfo, renames: Dict[str, str],
         def __init__(self, guards):
             self.known = set(guards)
 
-        def text(self, e):
+        def canon(self, e):
             c_ = cn._c(cn._copy(e), 0, {})
             if self.known and any(isinstance(x, ast.IfExp) for x in ast.walk(c_)):
                 c_ = _simplify(c_, self.known)
-            return ast.unparse(c_)
+            return c_
+
+        def text(self, e):
+            return ast.unparse(self.canon(e))
 
     def ops_of(node: ast.AST, guards, loops):
-        cg = _CN(guards)
+        base_guards = guards
         calls = [x for x in ast.walk(node) if isinstance(x, ast.Call)]
         calls.sort(key=lambda c: (c.lineno, c.col_offset))
+        ternaries = [x for x in ast.walk(node) if isinstance(x, ast.IfExp)]
         for c in calls:
+            c_src = c
+            # a call inside a branch of a conditional expression runs under that expression's test
+            guards = list(base_guards)
+            for te in ternaries:
+                if any(y is c_src for y in ast.walk(te.body)):
+                    guards += _guard_atoms(cn, te.test, True, guards)
+                elif any(y is c_src for y in ast.walk(te.orelse)):
+                    guards += _guard_atoms(cn, te.test, False, guards)
+            cg = _CN(guards)
             fn = c.func
             if isinstance(fn, ast.Attribute):
                 recv = dotted(fn.value)
@@ -501,7 +580,18 @@ def extract(program: Program, func: FuncInfo, renames: Dict[str, str],
                         for r in sub:
                             out.append(Record(r.op, r.args, tuple(guards) + r.guards, tuple(loops) + r.loops, r.line))
                         continue
-                    args = tuple(cg.text(a) for a in c.args) + tuple(f"{k.arg}={cg.text(k.value)}" for k in c.keywords)
+                    # f(X if c else Y)  is  f(X) under c  and  f(Y) under not c  (also when the conditional expression was given a name)
+                    cargs = [cg.canon(a) for a in c.args]
+                    tern = [i for i, a_ in enumerate(cargs) if isinstance(a_, ast.IfExp)]
+                    kw = tuple(f"{k.arg}={cg.text(k.value)}" for k in c.keywords)
+                    if len(tern) == 1:
+                        i = tern[0]
+                        for branch, truth in ((cargs[i].body, True), (cargs[i].orelse, False)):
+                            g_ = list(guards) + _signed(cargs[i].test, truth, set(guards))
+                            args = tuple(ast.unparse(branch if j == i else a_) for j, a_ in enumerate(cargs)) + kw
+                            out.append(Record(f"self.{name}", args, tuple(g_), tuple(loops), c.lineno))
+                        continue
+                    args = tuple(ast.unparse(a_) for a_ in cargs) + kw
                     out.append(Record(f"self.{name}", args, tuple(guards), tuple(loops), c.lineno))
                 elif fn.attr.startswith("on_") and _is_hook_receiver(func, recv):
                     out.append(Record(f"hook:{fn.attr}", tuple(cg.text(a) for a in c.args[1:]), tuple(guards), tuple(loops), c.lineno))
@@ -612,7 +702,7 @@ def extract(program: Program, func: FuncInfo, renames: Dict[str, str],
             else:
                 ops_of(s, guards, loops)
     walk(func.node.body, [], [], True)
-    return out
+    return _merge_complementary(out)
 
 
 _MUT = {"add", "discard", "remove", "clear", "update", "append", "extend", "pop", "popleft", "put", "setdefault", "set"}
